@@ -1,20 +1,28 @@
 """C05 - two indexed reflections determine the correct orientation (Busing-Levy).
 
 Specification  specs/Orient.tla  (see its header): exact integer reciprocal metrics of named lattices,
-rings = shells of equal Q, the block machine of unitcell.filter_pairs transcribed branch by branch (with
-the block ends as written, `len(c2as) - 1`, and repaired), "indexes the same" by its meaning (a member of
-Aut+(G), computed by brute force, maps one hkl pair on the other), orient()'s nearest / crange lookup
-and ubi_equiv's de-duplication.  Instance set = named lattices (21, three of them long-axis forms) x Scales:
-the cell (id, k) is the lattice `id` with every edge multiplied by 2^k (k = -3 .. 7: edges from ~0.5 A to
-~1300 A); the machine is scale free (it compares cosines), the orientations obey the scale law
-orient(s.cell, g/s) = s.orient(cell, g)  (Orient.tla, SCALE / ScaleLaw).
+rings = makerings' rings (runs of Q values whose d* lie within the ring tolerance of the ring's first member: shells
+of one Q for the small forms, several families of UNEQUAL d* for the pseudo-symmetric forms ortM / triM / tetN / monN,
+where |g| of a reflection is not the ring's d*), exact cosines N / sqrt(Q(ha) Q(hb)) compared as fractions, the block
+machine of unitcell.filter_pairs transcribed branch by branch (with the block ends as written, `len(c2as) - 1`, and
+repaired), "indexes the same" by its meaning (a member of Aut+(G), computed by brute force, maps one hkl pair on the
+other), orient()'s nearest / crange lookup and ubi_equiv's de-duplication.  Instance set = named lattices (25, three
+of them long-axis forms, four with merged rings) x Scales: the cell (id, k) is the lattice `id` with every edge
+multiplied by 2^k (k = -3 .. 7: edges from ~0.5 A to ~1300 A); the machine is scale free (it compares cosines), the
+orientations obey the scale law orient(s.cell, g/s) = s.orient(cell, g)  (Orient.tla, SCALE / ScaleLaw).
+Ring pairs of an instance = the ordered pairs of the first 4 (quick) / 5 rings + the cell's NEAR-CUT ring pairs: the
+specification computes, among the first 8 (quick) / 12 rings, the ring pairs holding the angle class with the largest
+|cos| < 0.98 and the non-collinear class with the smallest |cos| >= 0.98 (filter_pairs' cut; CutOf) - they are model
+cases (CutCase), recorded and judged like every other ring pair, and the run is void unless exactly these classes went
+through orient() / were set aside.
 
 TLC runs
   Orient_q / Orient_t   MODE "rule": every cell x ordered ring pair (quick: r1 <= r2 among the first 3 rings; the
-                        trace run below covers every recorded ring pair) x tie rule x block-end variant;
+                        trace run below covers every recorded ring pair) + near-cut ring pairs x tie rule x block-end variant;
                         invariants Complete (repaired ends), Irredundant, NoCrash, BlocksExact, DedupAgrees,
-                        EvenBlocks, TrueFound, CellLaws (Aut+ is a group of the expected order; ring boxes complete),
-                        ScaleLaw (integer side: rings, Aut+, sort keys, the 0.98 test of m.G are those of G)
+                        EvenBlocks, TrueFound, NoBoundaryTie, CellLaws (Aut+ is a group of the expected order; ring boxes
+                        complete up to the merge horizon), ScaleLaw (integer side: rings, Aut+, sort keys, the 0.98 test
+                        of m.G are those of G)
   Orient_asis           block ends as written: Complete must FAIL (design-level counterexample, F4)
   Orient_trace_q / _t   MODE "trace": the sorted pair order recorded from the REAL filter_pairs is validated
                         (permutation of ring1 x ring2, exact cosines never decrease) and the machine is run on
@@ -40,13 +48,16 @@ Binding (mode A, with the tie order of the unstable float sort taken from the co
                                                    recomputed after makerings(tol') changed ringtol
   unitcell.anglehkls(ha, hb)                       angle / cosine of every kept pair
   unitcell.orient(r1, g1, r2, g2)                  nearest mode and crange 0.002 / 0.71, g = U.B.h for EVERY hkl
-                                                   pair of the ring pair with |cos| < 0.98 and every rotation U
+                                                   pair of the ring pair with |cos| < 0.98 (every family of a merged
+                                                   ring: |g| is the reflection's own d*) and every rotation U
                                                    of the configuration (exact rational U; B = Cholesky factor
                                                    of the exact metric, harness arithmetic)
       property:    some member of UBIlist equals the true UBI up to a member of Aut+(G) (integer hkl for every
                    reflection of the grain), right handed, the cell's metric; no two members related by an
                    integer matrix.  Judged from the hkl pairs and Aut+ alone (the number of inequivalent pairs per
                    angle is counted on the pairs, not on a kept list), whether or not the kept list conforms.
+                   Every candidate indexes g1 and g2 themselves - required only where every pair the lookup can
+                   return has the observed angle and the observed lengths (c05_lib.same_lengths_only).
       conformance: UBIlist = exactly one Busing-Levy orientation per class of the model's candidates
   cImageD11.quickorient(g1, g2; BT cached by the code)  == Busing-Levy construction, for every kept pair
   the formula itself, for EVERY hkl pair with |cos| < 0.98 given its true indices (no lookup in between): the
@@ -135,23 +146,26 @@ def tlc_trace(chk, nr, lines, name, workers=16):
 
 # ----------------------------------------------------------------------------------------------
 
-def ring_pairs(tier, nr):
+def ring_pairs(tier, nr, cut=()):
+    """ordered ring pairs of the first nr rings (quick: r1 <= r2 and two transposed ones) + the cell's near-cut ring
+    pairs (Orient.tla, NEAR-CUT RING PAIRS: they hold the angle classes next to |cos| = 0.98 on both sides)"""
     if tier == "quick":
-        return [(a, b) for a in range(1, nr + 1) for b in range(a, nr + 1)] + [(2, 1), (4, 2)]
-    return [(a, b) for a in range(1, nr + 1) for b in range(1, nr + 1)]
+        std = [(a, b) for a in range(1, nr + 1) for b in range(a, nr + 1)] + [(2, 1), (4, 2)]
+    else:
+        std = [(a, b) for a in range(1, nr + 1) for b in range(1, nr + 1)]
+    return std + [tuple(p) for p in cut if tuple(p) not in std]
 
 
-def check_floats(rc, real, q1, q2, table=True):
-    """cosangles_many, cangs, anglehkls against the exact cosines"""
+def check_floats(rc, real, table=True):
+    """cosangles_many, cangs, anglehkls against the exact cosines (N / sqrt(Q(ha) Q(hb)), each pair its own lengths)"""
     probs = []
-    G = rc.G
-    s12 = math.sqrt(q1 * q2)
     if table:
-        exact = np.array([[float(np.dot(a, np.dot(G, b))) / s12 for b in real["h2"]] for a in real["h1"]])
+        exact = L.exact_cos_table(rc, real["h1"], real["h2"])
         if real["c2a"].shape != exact.shape or not L.close(real["c2a"], exact, 1.0):
             probs.append("cosangles_many differs from the exact cosines")
-    for (a, b), c in zip(real["kept"], real["cangs"]):
-        e = float(np.dot(a, np.dot(G, b))) / s12
+    kN, kD, _ = L.pair_keys(rc, real["kept"]) if real["kept"] else ([], [], [])
+    for (a, b), c, n, d in zip(real["kept"], real["cangs"], kN, kD):
+        e = float(n) / math.sqrt(float(d))
         if abs(c - e) > 1e-9:
             probs.append("cangs entry %r for pair %s, exact %r" % (c, (a, b), e))
         ang, cs = rc.cell.anglehkls(a, b)
@@ -215,7 +229,14 @@ def judge_ringpair(chk, rc, rt, r1, r2, real, model, rots, stats, xs=None, pertu
             r1 - 1, r2 - 1, real["error"], " (the model's empty last block)" if crash else ""), None))
         return out
     bad = model["bad"]
-    q1, q2 = rc.qs[r1 - 1], rc.qs[r2 - 1]
+    # the model's blocks are blocks of equal exact cosine: they are the code's blocks (float differences > 1e-8) only
+    # if distinct exact cosines of the ring pair are well apart (a property of the instance, not of the tree)
+    _, _, keys = L.pair_keys(rc, [(a, b) for a in rc.rings[r1 - 1] for b in rc.rings[r2 - 1]])
+    _, gap = L.class_ranks(keys)
+    if gap <= L.MIN_GAP:
+        raise common.MachineryError("instance %s rings (%d,%d): two distinct exact cosines differ by %.3g only (the "
+                                    "code clusters at 1e-8): not a usable instance" % (rc.name, r1 - 1, r2 - 1, gap))
+    stats.min_cos_gap = min(stats.min_cos_gap, gap)
     if bad:
         # the specification does not accept the recorded order: either the tree handed its filter_pairs something that
         # is not the cosine table of ring1 x ring2 (a violation of the tree, reported; the property is then judged
@@ -236,14 +257,14 @@ def judge_ringpair(chk, rc, rt, r1, r2, real, model, rots, stats, xs=None, pertu
     cat = "order_rejected" if bad else {(False, True): "both_variants", (False,): "repaired_ends_only",
                                         (True,): "written_ends_only", (): "neither"}[tuple(match)]
     stats.conform[cat] = stats.conform.get(cat, 0) + 1
-    for p in check_floats(rc, real, q1, q2, table=not bad):
+    for p in check_floats(rc, real, table=not bad):
         out.append(("property", p, None))
     if rc.k != 0:
         for p in scale_law_kept(rc, real, base):
             out.append(("conformance", p, None))
     if which is None:
         # neither variant of the block machine explains the list: judge the property on the list itself
-        direct = L.judge_kept_direct(rc, real, q1, q2)
+        direct = L.judge_kept_direct(rc, real)
         chk.notes["kept_unexplained"] = chk.notes.get("kept_unexplained", 0) + 1
         for p in direct:
             out.append(("property", "kept list (not the model's): " + p, None))
@@ -282,16 +303,22 @@ def judge_ringpair(chk, rc, rt, r1, r2, real, model, rots, stats, xs=None, pertu
     for p in probs:
         out.append(("property", p, {"rot": ui}))
     nbad = {}
+    q12 = rc.qs[r1 - 1] * rc.qs[r2 - 1]
     for ui, U in rots:
         st = store.setdefault(ui, {}) if store is not None else None
         lw = law.get(ui) if law is not None else None
         for x in (range(rec["n"]) if xs is None else xs):
+            acos = abs(rec["nn"][x]) / math.sqrt(float(rec["dd"][x]))
             if not rec["small"][x]:
-                if rec["nk"][x] ** 2 == q1 * q2:
+                if rec["nn"][x] ** 2 == rec["dd"][x]:
                     stats.skipped_collinear += 1
                 else:
                     stats.skipped_near += 1
+                    stats.near_cut_above[rc.id] = min(stats.near_cut_above.get(rc.id, 1.0), acos)
                 continue
+            stats.near_cut_below[rc.id] = max(stats.near_cut_below.get(rc.id, 0.0), acos)
+            if rec["dd"][x] != q12:
+                stats.merged_pairs += 1
             for mode in MODES:
                 probs = L.judge_orient(rc, r1, r2, rec, lookups, U, x, mode, stats, perturb=perturb,
                                        conform=(which is not None), store=st, law=lw)
@@ -327,7 +354,8 @@ def check_cache(rc, rec, pairs, reals):
     # same rings, different tolerance: cache must be rebuilt and give the same lists
     rc.cell.makerings(rc.limit, tol=0.0009 / rc.s)
     if rc.ring_problems():
-        return probs        # (tolerance changed the table: not this property's business)
+        rc.cell.makerings(rc.limit, tol=rc.tol)
+        return probs        # (tolerance changed the table - merged rings split: not this check's subject)
     n0 = len(rec.calls)
     for (r1, r2) in pairs[:3]:
         real = reals.get((r1, r2))
@@ -359,7 +387,7 @@ def replay_cache(chk, ucmod, crec, nr, hists):
     viol = []
     mism = 0
     for hist in hists:
-        rc = L.RealCell(ucmod, crec, nr)
+        rc = L.RealCell(ucmod, crec)
         with L.Recorder(ucmod) as rec:
             for op in hist:
                 if op[0] == "retol":
@@ -392,6 +420,10 @@ class Stats(L.OrientStats):
         L.OrientStats.__init__(self)
         self.conform = {}
         self.skipped_near = 0
+        self.min_cos_gap = 2.0
+        self.merged_pairs = 0       # hkl pairs judged whose |g| differs from the d* of the ring it is assigned to
+        self.near_cut_below = {}    # per cell: largest |cos| < 0.98 among the pairs orient() was called for
+        self.near_cut_above = {}    # per cell: smallest |cos| >= 0.98 among the non-collinear pairs set aside
 
 
 def instance_scales(tier, crec, idx, only_k=None):
@@ -419,7 +451,7 @@ def process(chk, ucmod, rt, cells, nr, tier, only=None, perturb=None, imod=None,
             ks = instance_scales(tier, cells[cid], idx, only[3] if only else None) if scales else [0]
             nrot = len(cells[cid]["rots"])
             for k in ks:
-                rc = L.RealCell(ucmod, cells[cid], nr, k)
+                rc = L.RealCell(ucmod, cells[cid], k)
                 rp = rc.ring_problems()
                 if rp:
                     set_aside[rc.name] = rp[:3]
@@ -428,7 +460,7 @@ def process(chk, ucmod, rt, cells, nr, tier, only=None, perturb=None, imod=None,
                 # k = 0: every rotation; other scales: one, seed-chosen (the k = 0 instance keeps its results for the law)
                 rc.rotidx = list(range(nrot)) if k == 0 else [(common.seed() + idx + k) % nrot]
                 rc.reals = {}
-                rc.pairs = ring_pairs(tier, nr) if not only else [(only[1], only[2])]
+                rc.pairs = ring_pairs(tier, nr, rc.cut) if not only else [(only[1], only[2])]
                 for (r1, r2) in rc.pairs:
                     real = L.record_ringpair(rc, rec, r1, r2)
                     rc.reals[(r1, r2)] = real
@@ -535,8 +567,10 @@ def run(tier, replay=None):
     common.use_shadow(shadow)
     from ImageD11 import unitcell as ucmod, cImageD11 as rt
     imod = _indexing()
-    chk.rule = ("TLC enumerates named lattices (exact integer reciprocal metric, centring; scale free) x ordered ring pairs of "
-                "the first NR rings x tie rules x block-end variants; every lattice is instantiated at k = 0 (all rotations) and "
+    chk.rule = ("TLC enumerates named lattices (exact integer reciprocal metric, centring, ring tolerance; scale free; four of "
+                "them with rings merging families of unequal d*) x (ordered ring pairs of the first NR rings + the ring pairs "
+                "holding the angle classes next to the 0.98 cut on both sides among the first NRC rings) x tie rules x "
+                "block-end variants; every lattice is instantiated at k = 0 (all rotations) and "
                 "with every edge x 2^k for the scales of the configuration (quick: both ends and one seed-chosen scale; one "
                 "seed-chosen rotation); for every ring pair of every instance the real filter_pairs is "
                 "recorded and its kept list compared with the model run on the recorded order; orient() is then called "
@@ -544,8 +578,11 @@ def run(tier, replay=None):
                 "BTmat+quickorient / ubi_fit_2pks for every such pair with its true indices; non-trivial = "
                 "every orient call (distinct by instance, rings, pair, rotation, mode)")
     chk.assumptions = [
-        "rings are exact shells of equal Q (cells scaled so that distinct Q are > 5 makerings tolerances apart); cells whose real "
-        "ring table differs from the model's (C03 findings) are set aside and listed in the evidence",
+        "rings are makerings' rings of exact integer metrics (runs of Q within the ring tolerance of the first member: one "
+        "shell for the small forms, merged families for ortM / triM / tetN / monN); the real ring table is compared with the model's, cells where it "
+        "differs (C03 findings) are set aside and listed in the evidence",
+        "blocks of equal angle = pairs of equal exact cosine: distinct exact cosines of every replayed ring pair differ by "
+        "more than 1e-6 (checked; the code clusters at 1e-8)",
         "the order inside a block of equal cosines comes from the code's own unstable float sort: it is recorded, validated "
         "(ValidOrder) and fed to the model; the property is model-checked for two deterministic tie rules",
         "lattice symmetry = Aut+ of the cell's metric (for R centring this includes operations exchanging obverse and reverse: "
@@ -604,6 +641,10 @@ def run(tier, replay=None):
     chk.notes["ambiguous_nearest"] = stats.ambiguous_nearest
     chk.notes["pairs_collinear"] = stats.skipped_collinear
     chk.notes["pairs_not_collinear_but_abs_cos_ge_0.98"] = stats.skipped_near
+    chk.notes["orient_pairs_with_g_longer_than_the_ring_dstar(merged rings)"] = stats.merged_pairs
+    chk.notes["smallest_difference_of_distinct_cosines"] = stats.min_cos_gap
+    chk.notes["largest_abs_cos_below_0.98_per_cell"] = dict((c, round(v, 6)) for c, v in sorted(stats.near_cut_below.items()))
+    chk.notes["smallest_abs_cos_at_or_above_0.98_per_cell"] = dict((c, round(v, 6)) for c, v in sorted(stats.near_cut_above.items()))
     chk.notes["cells_replayed"] = sorted(set(c for c, k in rcs))
     nprop = len([v for v in viol if v[4] in ("property", "trace")])
     # (the counters only cover ring pairs whose kept list the model explains: with violations pending the
@@ -611,6 +652,20 @@ def run(tier, replay=None):
     if nprop == 0 and (stats.calls < 1000 or stats.multi < 10 or stats.crossblock < 10 or stats.dedup < 10):
         raise common.MachineryError("vacuity: %d orient calls, %d multi-class, %d cross-block, %d merging lookups"
                                     % (stats.calls, stats.multi, stats.crossblock, stats.dedup))
+    if nprop == 0:
+        # the angle classes next to the cut (specification: CutOf) really went through orient() / were set aside, and
+        # reflections of every family of a merged ring were used
+        for cid in sorted(set(c for c, k in rcs)):
+            lo, hi = cells[cid]["cutlo"], cells[cid]["cuthi"]
+            if abs(stats.near_cut_below.get(cid, 0.0) - math.sqrt(lo[0] / float(lo[1]))) > 1e-12:
+                raise common.MachineryError("vacuity: cell %s: the class next below the 0.98 cut (cos^2 = %d/%d) was not replayed"
+                                            % (cid, lo[0], lo[1]))
+            if hi[0] < hi[1] and abs(stats.near_cut_above.get(cid, 1.0) - math.sqrt(hi[0] / float(hi[1]))) > 1e-12:
+                raise common.MachineryError("vacuity: cell %s: the class next above the 0.98 cut (cos^2 = %d/%d) was not replayed"
+                                            % (cid, hi[0], hi[1]))
+        if any(len(q) > 1 for c, k in rcs for q in cells[c]["qsets"][:nr]) and stats.merged_pairs < 100:
+            raise common.MachineryError("vacuity: only %d orient calls with a reflection of a non-first family of a merged ring"
+                                        % stats.merged_pairs)
     nscaled = len([1 for c, k in rcs if k != 0])
     if nprop == 0 and (nscaled == 0 or stats.law_exact + stats.law_differs < 100 * nscaled or stats.direct_routes < 1000):
         raise common.MachineryError("vacuity: %d scaled instances, %d scale law comparisons, %d direct route pairs"
@@ -681,6 +736,55 @@ def selftest(ucmod=None, rt=None, cells=None, nr=4):
         ucmod.cosangles_many = orig_cos
     if not any(v[4] == "trace" for v in viol):
         raise common.MachineryError("selftest: an order made from a corrupted cosine table was not reported")
+    # the angle class next below the 0.98 cut: a filter_pairs whose cut lies just below it must be reported on the cell's
+    # near-cut ring pair (the near-cut classes are bound)
+    for cid2 in [c for c in ("cubF", "tetL") if c in cells] or sorted(cells)[:1]:
+        lo = cells[cid2]["cutlo"]
+        cutc = math.sqrt(lo[0] / float(lo[1])) - 1e-9
+
+        def tight(*a, **k):
+            p, c, m = orig(*a, **k)
+            keep = [i for i in range(len(c)) if abs(c[i]) < cutc]
+            return [p[i] for i in keep], [c[i] for i in keep], [m[i] for i in keep]
+        ucmod.filter_pairs = tight
+        try:
+            hits = []
+            for (r1, r2) in cells[cid2]["cut"]:
+                chk = common.Check(PROP, "selftest")
+                stats, viol, _ = process(chk, ucmod, rt, {cid2: cells[cid2]}, nr, "quick", only=(cid2, r1, r2, 0))
+                hits += [v for v in viol if v[4] == "property"]
+        finally:
+            ucmod.filter_pairs = orig
+        if not hits:
+            raise common.MachineryError("selftest: a cut just below the largest |cos| < 0.98 of %s was accepted" % cid2)
+    # a ring that merges families of unequal d*: an orient() that takes the ring's d* for |g| (the observed cosine
+    # normalised with ringds) must be reported for reflections of the ring's other families
+    merged = [(c, r + 1) for c in sorted(cells) for r in range(nr) if len(cells[c].get("qsets", [[0]] * nr)[r]) > 1]
+    if merged:
+        cidm, rm = merged[0]
+        orig_orient = ucmod.unitcell.orient
+
+        def ringnorm(self, ring1, g1, ring2, g2, verbose=0, crange=-1.):
+            g1 = np.asarray(g1, float)
+            g2 = np.asarray(g2, float)
+            c = float(np.dot(g1, g2)) / (self.ringds[ring1] * self.ringds[ring2])
+            c = max(-1.0, min(1.0, c))
+            e1 = g1 / math.sqrt(float(np.dot(g1, g1)))
+            e2 = g2 - np.dot(g2, e1) * e1
+            e2 = e2 / math.sqrt(float(np.dot(e2, e2)))
+            # a vector in the plane of g1, g2 at the (wrong) angle: same triad, looked up with the wrong cosine
+            return orig_orient(self, ring1, g1, ring2, c * e1 + math.sqrt(1.0 - c * c) * e2, verbose, crange)
+        ucmod.unitcell.orient = ringnorm
+        try:
+            chk = common.Check(PROP, "selftest")
+            # (partner ring: another merged ring of the cell if there is one - the error grows with |cos|)
+            other = ([r for c, r in merged if c == cidm and r != rm] + [r + 1 for r in range(nr) if r + 1 != rm])[0]
+            stats, viol, _ = process(chk, ucmod, rt, {cidm: cells[cidm]}, nr, "quick", only=(cidm, min(rm, other), max(rm, other), 0))
+        finally:
+            ucmod.unitcell.orient = orig_orient
+        if not [v for v in viol if v[4] == "property"]:
+            raise common.MachineryError("selftest: an orient() normalising the observed cosine with the ring d* was accepted "
+                                        "on the merged ring %d of %s" % (rm - 1, cidm))
     # an absolute threshold on |g1 x g2| inside the orientation kernel: invisible at k = 0, must be found on the
     # scaled cell (the scale family and the direct routes are bound)
     kbig = max(cells[cid].get("scales", [0]))
